@@ -28,7 +28,7 @@ CHUNK = 4
 
 
 def budget(tier):
-    return 500 if tier == "quick" else 12000
+    return 1500 if tier == "quick" else 12000
 
 
 def after_op(w, task, rec, outs):
@@ -42,7 +42,7 @@ def after_op(w, task, rec, outs):
 
 
 def on_exception(w, task, rec, exc):
-    if rec["op"] in ("m_measure", "m_zipper", "m_compression") and e2.known_meta_product(task, rec, exc):
+    if rec["op"] in ("m_measure", "m_zipper", "m_compression", "m_inplace") and e2.known_meta_product(task, rec, exc):
         return
     if rec["op"] in ("m_random_mps", "m_random_mpo") and "zero state" in str(exc):
         return      # documented outcome of the random initialiser for narrow bond dimensions
